@@ -8,9 +8,13 @@
     raw <bytes-hex>                               file := orig := bytes; static load
     mut.xor <pos> <mask>                          file := orig with byte pos xor mask; static load
     mut.trunc <len>                               file := first len bytes of orig; static load
+    mut.lie <dRiff> <dData>                       file := orig with the RIFF length field (offset 4) and the
+                                                  data-chunk length field (offset 40) increased; static load
     st.new <start> <a> <b>|- -                    open a stream on file (slice a..b or none)
     st.run <k>                                    k scheduler iterations, frames pushed
     st.seek <idx> <k>                             seek_to(idx) then k iterations
+    st.thread                                     hand the stream to a real decoder thread and play it out:
+                                                  `thread finished` | `thread stopped <error on the handle>`
     asset …                                       implementation-side only (echoed)
 -/
 import KiraModel.Exec.Proto
@@ -111,6 +115,14 @@ def xorAt (bs : List UInt8) (pos mask : Nat) : List UInt8 :=
   | some b => bs.set pos (b ^^^ UInt8.ofNat mask)
   | none => bs
 
+/-- add `d` (mod 2³²) to the little-endian u32 at byte offset `off` (files too short: unchanged) -/
+def addLE32 (bs : List UInt8) (off d : Nat) : List UInt8 :=
+  if bs.length < off + 4 then bs else
+  bs.take off ++ leBytes 4 ((leVal ((bs.drop off).take 4) + d) % 4294967296) ++ bs.drop (off + 4)
+
+/-- iterations allowed to the decoder-thread model (`runThread`); a stream has far fewer frames -/
+def threadSteps : Nat := 1000000
+
 def setFile (st : WavState) (bs : List UInt8) (orig : Bool) (pre : String) : Option (WavState × String) :=
   let r := showLoad bs
   let line := if r == "nopred" then r else pre ++ r
@@ -132,6 +144,9 @@ def wavStep (st : WavState) (tok : List String) : Option (WavState × String) :=
   | ["mut.trunc", len] => do
       let len ← nat? len
       setFile st (st.orig.take len) false ""
+  | ["mut.lie", dr, dd] => do
+      let dr ← nat? dr; let dd ← nat? dd
+      setFile st (addLE32 (addLE32 st.orig 4 dr) 40 dd) false ""
   | ["st.new", start, a, b] => do
       let start ← nat? start
       let slice ← if a == "-" then some none else do
@@ -165,6 +180,16 @@ def wavStep (st : WavState) (tok : List String) : Option (WavState × String) :=
         | .ok sch =>
           let (acc, s', e) := runK D k { s with st := sch } []
           pure ({ st with stream := some s' }, showRun acc s' e)
+  | ["st.thread"] =>
+      match st.stream with
+      | none => pure (st, "nostream")
+      | some s =>
+        if s.ended then pure (st, "ended") else
+        let line := match runThread (wavDecoder fdFloat s.fc s.r) s.cfg streamFuel threadSteps s.st [] with
+          | .error e => s!"thread {errName e}"
+          | .ok ⟨_, none⟩ => "thread finished"
+          | .ok ⟨_, some e⟩ => s!"thread stopped {errName e}"
+        pure ({ st with stream := some { s with ended := true } }, line)
   | "asset" :: _ => pure (st, "asset ok")
   | "asset.mut" :: _ => pure (st, "asset ok")
   | _ => none
